@@ -10,6 +10,8 @@ import RawPanelVerif.Driver.SvgIcon
 import RawPanelVerif.Driver.ConvOut
 import RawPanelVerif.Driver.ConvIn
 import RawPanelVerif.Driver.Conc
+import RawPanelVerif.Driver.Lifecycle
+import RawPanelVerif.Driver.Gorwp
 /-!
 Driver: reads records `cmd arg… | implementation-output` on stdin, prints one answer line per record:
 `EQ|NE  H1|H0:<clause>  [model output when NE]`.  State is per family and persists across lines.
@@ -48,6 +50,8 @@ def stepLine (st : DriverSt) (line : String) : DriverSt × String :=
   else if cmd.startsWith "eout." || cmd.startsWith "dout." then (st, Driver.ConvOut.step cmd args impl)
   else if cmd.startsWith "ein." || cmd.startsWith "din." then (st, Driver.ConvIn.step cmd args impl)
   else if cmd.startsWith "conc." then (st, Driver.Conc.step cmd args impl)
+  else if cmd.startsWith "life." then (st, Driver.Lifecycle.step cmd args impl)
+  else if cmd.startsWith "gorwp." then (st, Driver.Gorwp.step cmd args impl)
   else (st, "ERR unknown-family")
 
 partial def loop (h : IO.FS.Stream) (out : IO.FS.Stream) (st : DriverSt) : IO Unit := do
